@@ -146,7 +146,33 @@ def run(ctx):
         for k in range(30 if big else 4):
             yield ("world", {"_k": "thr:%d" % k, "mode": "threads", "ops": ops, "probes": rng.sample(range(len(ops)), 5), "threads": 4, "reps": 15})
 
-    run_batch(ctx, MODULE, CFG, gen(), world.OBSERVERS, sigfn, negfn, chunk=400, neg_every=3)
+    run_batch(ctx, MODULE, CFG, gen(), world.OBSERVERS, sigfn, negfn, chunk=400, neg_every=3, parallel="threads")
+
+    # (c') the COMPLETE definition set in several orders: parse (and keyword construction) of every reachable (mode, definition),
+    # executed in identity / reversed / grouped-by-message / shuffled order, each order in a fresh interpreter; one result per input
+    def gen_orders():
+        allops = []
+        for l in lays:
+            if not l["reachable"] or l["c"] != 1 or not l["pbf"]:
+                continue
+            P = walk.fill(l, "count", rng, cfgdb)
+            allops.append(((l["cls"], l["id"], l["m"]), {"kind": "parse", "f": frame(l["cls"], l["id"], P).hex(), "mode": l["m"], "pbf": 1}))
+        keys = [k for k, _ in allops]
+        opl = [o for _, o in allops]
+        n = len(opl)
+        ident = list(range(n))
+        bymsg = sorted(ident, key=lambda i: (keys[i][0], keys[i][1], keys[i][2]))
+        bymsg_rev = sorted(ident, key=lambda i: (keys[i][0], keys[i][1], -keys[i][2]))
+        orders = [ident, ident[::-1], bymsg, bymsg_rev]
+        for _ in range(6 if big else 2):
+            sh = ident[:]
+            rng.shuffle(sh)
+            orders.append(sh)
+        ctx.extra["order_permutation_ops"] = n
+        ctx.extra["order_permutations"] = len(orders)
+        yield ("orders", {"_k": "orders", "mode": "history", "ops": opl, "orders": orders})
+
+    run_batch(ctx, MODULE, CFG, gen_orders(), world.OBSERVERS, sigfn, negfn, chunk=10, neg_every=1)
     ctx.exhaustive = False
     ctx.assumptions += ["interleavings are explored at Python source-line granularity (pyubx2 is pure Python); pre-emption inside a C-level call is not",
                         "each trace is recorded in a fresh interpreter; stdout/stderr are observed at file-descriptor level"]
